@@ -252,6 +252,21 @@ def handleCopySys (limit : Option Nat) (len : Nat) (taken : Bool) : String :=
   let r := Sys.copy flt d0 "src" "dst"
   renderRes r.2 ++ ";" ++ renderFile r.1 "dst" data
 
+/-- `C08.putsec <fsync|close> <len>` / `C08.copysec <fsync|close> <len>`: the system call fails for good (seccomp
+filter of the child process) → `<outcome>;<file at the path / destination>` -/
+def handleSec (put : Bool) (what : String) (len : Nat) : Option String := do
+  guard (what = "fsync" || what = "close")
+  let data := sysData len
+  if put then
+    let flt : Sys.PutFaults := { sync := what = "fsync", close := what = "close" }
+    let r := Sys.put ⟨"rel", "full"⟩ flt (fun _ => none) data
+    pure (renderRes r.2 ++ ";" ++ renderFile r.1 "full" data)
+  else
+    let d0 : Sys.Disk := fun p => if p = "src" then some data else none
+    let flt : Sys.CopyFaults := { sync := what = "fsync", close := what = "close" }
+    let r := Sys.copy flt d0 "src" "dst"
+    pure (renderRes r.2 ++ ";" ++ renderFile r.1 "dst" data)
+
 /-- `C08.v1nl <limit|-> <len> H <op>… O g:<slot> F <op>…`: v1 store without cache on a storage without hard
 links; the history copy of the rotation under test runs under the file size limit -/
 def handleV1NoLink (limit : Option Nat) (len : Nat) (sc : Scenario) : Option String :=
@@ -277,6 +292,8 @@ def handle (op : String) (args : List String) : Option String :=
       let len ← n.toNat?
       guard (pre = "free" || pre = "taken")
       pure (handleCopySys limit len (pre = "taken"))
+  | "putsec", [what, n] => do handleSec true what (← n.toNat?)
+  | "copysec", [what, n] => do handleSec false what (← n.toNat?)
   | "v1nl", l :: n :: rest => do
       let limit ← parseLimit l
       let len ← n.toNat?
@@ -299,6 +316,19 @@ def handle (op : String) (args : List String) : Option String :=
       let n ← n.toNat?
       let (st, out) := Rotate.exec Rotate.codeVariant ⟨mode, k⟩ 0 Rotate.RSt.init (Rotate.codeEvents [(0, n)])
       pure (renderOutcome out ++ ";" ++ renderFiles st n ++ ";" ++ ".".intercalate ((st.offered 0).map toString))
+  | "rotin", [fmt, j, n] => do
+      -- cut INSIDE the save of the new key pair, right after its j-th storage / back-end call
+      let j ← j.toNat?
+      let n ← n.toNat?
+      let pre := ((V1.init (-1)).run [.gen Rotate.pairSlot]).1.fs
+      let (calls, out, offered) ← (match fmt with
+        | "v1" => let r := Rotate.saveCutV1 j; some (r.1.map (renderCall pre), r.2.1, r.2.2)
+        | "v2" => let r := Rotate.saveCutV2 j; some (r.1.map renderBCall, r.2.1, r.2.2)
+        | _ => none)
+      let off := match offered with
+        | some l => ".".intercalate (l.map toString)
+        | none => "err"
+      pure (joinOr "," calls ++ ";" ++ renderOutcome out ++ ";" ++ String.join (List.replicate n "n") ++ ";" ++ off)
   | _, _ => none
 
 end Driver.C08
